@@ -1,13 +1,16 @@
 /- X-solout: replays callback histories on the handler model (`Model/SolOut.lean`) at `Float`. -/
 import IvpModel.Driver.Util
 import IvpModel.Model.SolOut
+import IvpModel.Gen.Static
 
 namespace Drv.SolOut
 open Drv SolOutM
 
+/-- handler literals: the four that the source spells out are taken from the regenerated `Gen/Static.lean` -/
 def lits : Lits Float :=
-  { tol := 1e-12, xtol := 2e-12, rtol := Float.ofBits 0x3CB0000000000000, half := 0.5, two := 2.0, three := 3.0,
-    one := 1.0, zero := 0.0, maxIter := 100 }
+  { tol := Float.ofBits Gen.Static.soloutTol.2.2, xtol := Float.ofBits Gen.Static.soloutXtol.2.2,
+    rtol := Float.ofBits Gen.Static.soloutRtol.2.2, half := 0.5, two := 2.0, three := 3.0,
+    one := 1.0, zero := 0.0, maxIter := Gen.Static.soloutMaxIter }
 
 structure Ev where
   a : Float
@@ -46,6 +49,7 @@ structure Run where
   evs : Array Ev := #[]
   cfgs : Array EvCfg := #[]
   dead : Bool := false      -- a callback panicked or interrupted: the harness stops feeding the handler
+  panicked : Bool := false
 
 def parseDir (s : String) : Dir := if s == "1" then .positive else if s == "-1" then .negative else .all
 
@@ -68,12 +72,12 @@ def step (r : Run) (line : String) : Run × String :=
           | [xo, h, c0, c1, c2] => some (quadInterp (parseF xo) (parseF h) (parseFs c0) (parseFs c1) (parseFs c2))
           | _ => none
         match SolOutM.step lits (evalEvents r.evs) st (parseF xold) (parseF x) (parseFs ys) ip with
-        | none => ({ r with dead := true }, "flag panic")
+        | none => ({ r with dead := true, panicked := true }, "flag panic")
         | some (st', .cont) => ({ r with st := some st' }, "flag cont")
         | some (st', .interrupt) => ({ r with st := some st', dead := true }, "flag interrupt")
   | ["end"] =>
       match r.st with
-      | some st => (r, dumpSt st)
+      | some st => (r, if r.panicked then "end after-panic" else dumpSt st)
       | none => (r, "bad-op")
   | _ => (r, "bad-op")
 
